@@ -30,8 +30,8 @@ ID = "C02"
 LEAN_TARGETS = ["RV.C02.Props", "RV.C02.Audit"]
 AUDIT = "RV/C02/Audit.lean"
 DRIVER = "drv_c02"
-CASES = {"quick": 1200, "thorough": 40000, "search": 20000}
-RULE = ("random histories (3-12 mutating ops, each followed by an observation block and 2-5 probes) over one Memory "
+CASES = {"quick": 3000, "thorough": 60000, "search": 20000}
+RULE = ("random scripts (3-12 mutating calls quick / 3-16 thorough, each followed by an observation block and 2-5 probes) over one Memory "
         "store seen through a Dataset (default_union on/off), a ConjunctiveGraph and independent Graph(store, name) "
         "views; graph names: IRI, blank node with the same label, IRI, blank node, one never created, one created but "
         "empty, the two default graphs; non-trivial = at some point two graphs held a common triple or a restricted "
@@ -181,7 +181,11 @@ class _Impl:
         if g[0] in "-N":
             return None
         if g[0] == "i":
-            return self.names[g[1]]
+            n = self.names[g[1]]
+            self.rot += 1
+            if isinstance(n, URIRef) and self.rot % 4 == 0:
+                return str(n)          # a plain str is accepted as a graph identifier too
+            return n
         if g[0] == "v":
             if self.rot % 3 == 0:
                 v = self.top(top).get_context(self.names[g[1]])  # a view obtained just now
@@ -348,6 +352,13 @@ def run_impl(case):
                     if set(res) != want:
                         bad("union", k, f"query without graph (default_union={im.du[top]}) returned {sorted(set(res))}, "
                                         f"the mapping gives {sorted(want)}")
+                    # the same clause on the implementation's own per-graph views (no oracle involved)
+                    snap = im.snapshot()
+                    own = set().union(*snap.values()) if im.du[top] else snap[dflt(top)]
+                    own = {t for t in own if _match(pat, t)}
+                    if set(res) != own:
+                        bad("union-self", k, f"query without graph (default_union={im.du[top]}) returned {sorted(set(res))} "
+                                             f"but the graphs, read one by one, hold {sorted(own)}")
                     bump("probe_nograph")
                 elif e == dflt(top) and im.du[top]:
                     want = {t for t in orc.union() if _match(pat, t)}
@@ -416,7 +427,10 @@ def run_impl(case):
                 out = " ".join(",".join(map(str, q)) for q in sorted(res))
             elif op == "graphs":
                 top = w[1]
-                gs = list(im.top(top).graphs() if top == "d" else im.top(top).contexts())
+                if top == "d":
+                    gs = list(im.d.graphs() if k % 3 else im.d.contexts())   # contexts(): deprecated alias
+                else:
+                    gs = list(im.c.contexts())
                 res = sorted(im.gid(g) for g in gs)
                 for g in gs:
                     if g.store is im.store:
@@ -433,7 +447,10 @@ def run_impl(case):
                 out = " ".join(map(str, res))
             elif op == "graphsof":
                 top, t = w[1], tuple(map(int, w[2:5]))
-                gs = list(im.top(top).graphs(im.triple(t)) if top == "d" else im.top(top).contexts(im.triple(t)))
+                if top == "d":
+                    gs = list(im.d.graphs(im.triple(t)) if k % 3 else im.d.contexts(im.triple(t)))
+                else:
+                    gs = list(im.c.contexts(im.triple(t)))
                 res = sorted(im.gid(g) for g in gs)
                 want = sorted(gk for gk, ts in orc.D.items() if t in ts)
                 if res != want:
